@@ -64,7 +64,9 @@ build_cdrv() { # $1 = bigint|maparr
   case "$1" in
     bigint)
       clang $san -std=gnu99 -w -I "$REPO/runtime/core" -o "$TC/cdrv/bigint_drv" "$VERIF/cdrv/bigint_drv.c" "$REPO/runtime/core/bigint.c" -lm \
-        >>"$S/build.log" 2>&1 || { cat "$S/build.log" >&2; die2 "bigint driver build failed"; } ;;
+        >>"$S/build.log" 2>&1 || { cat "$S/build.log" >&2; die2 "bigint driver build failed"; }
+      clang $san -std=gnu99 -w -U__SIZEOF_INT128__ -I "$REPO/runtime/core" -o "$TC/cdrv/bigint_drv32" "$VERIF/cdrv/bigint_drv.c" "$REPO/runtime/core/bigint.c" -lm \
+        >>"$S/build.log" 2>&1 || { cat "$S/build.log" >&2; die2 "bigint (32-bit limb) driver build failed"; } ;;
     maparr)
       clang $san -std=gnu99 -w -I "$REPO/runtime/core" -I "$REPO/runtime/libs" -o "$TC/cdrv/maparr_drv" "$VERIF/cdrv/maparr_drv.c" \
         "$REPO/runtime/core/map.c" "$REPO/runtime/core/array.c" "$REPO/runtime/core/optional.c" "$REPO/runtime/core/alloc.c" \
@@ -96,7 +98,7 @@ conf() {
     C13) Q=250  T=4000 ;;
     C14) Q=12   T=150 ;;
     C15) Q=20   T=300 ;;
-    C16) Q=20000 T=1500000; NEED=bigint ;;
+    C16) Q=3000 T=60000; NEED=bigint ;;
     C17) Q=300  T=20000;  NEED=maparr ;;
     C18) Q=2000 T=60000 ;;
     C19) Q=60   T=800 ;;
